@@ -351,6 +351,49 @@ def Tree.sizedL : List Tree → Bool
   | t :: ts => Tree.sized t && Tree.sizedL ts
 end
 
+mutual
+/-- no raw `PutBytes` leaf. -/
+def Tree.noRaw : Tree → Bool
+  | .raw _ => false
+  | .cont ks => Tree.noRawL ks
+  | .mix _ _ ks => Tree.noRawL ks
+  | .seq ks => Tree.noRawL ks
+  | _ => true
+def Tree.noRawL : List Tree → Bool
+  | [] => true
+  | t :: ts => Tree.noRaw t && Tree.noRawL ts
+end
+
+mutual
+/-- the part of `sized` that is about the data: exact length of `putBytesN` values, uint64 ranges. -/
+def Tree.sizedData : Tree → Bool
+  | .fixed n b => b.length == n
+  | .blist max _ => max < 18446744073709551616
+  | .u64 n => n < 18446744073709551616
+  | .u64s _ xs => xs.length < 18446744073709551616 && xs.all (· < 18446744073709551616)
+  | .sigs max _ => max < 18446744073709551616
+  | .cont ks => Tree.sizedDataL ks
+  | .mix _ num ks => num < 18446744073709551616 && Tree.sizedDataL ks
+  | .seq ks => Tree.sizedDataL ks
+  | _ => true
+def Tree.sizedDataL : List Tree → Bool
+  | [] => true
+  | t :: ts => Tree.sizedData t && Tree.sizedDataL ts
+end
+
+mutual
+/-- the part of `sized` that follows from a well-formed schema: list groups mix in their own
+element count, one chunk per element. -/
+def Tree.sizedStruct : Tree → Bool
+  | .cont ks => Tree.sizedStructL ks
+  | .mix _ num ks => num == ks.length && ks.all Tree.single && Tree.sizedStructL ks
+  | .seq ks => Tree.sizedStructL ks
+  | _ => true
+def Tree.sizedStructL : List Tree → Bool
+  | [] => true
+  | t :: ts => Tree.sizedStruct t && Tree.sizedStructL ts
+end
+
 /-! ## Values, schemas, interpreter -/
 
 /-- generic value of a decoded definition / lock (Go struct seen through reflection). -/
@@ -395,6 +438,11 @@ deriving Repr
 
 inductive Lim | const (n : Nat) | num
 deriving DecidableEq, Repr
+
+/-- limit argument of `MerkleizeWithMixin`: a constant, or (`none`) the mixed-in number itself. -/
+def Lim.toOpt : Lim → Option Nat
+  | .const n => some n
+  | .num => none
 
 /-- hashing schema as extracted by T-ssz from `cluster/ssz.go` for one (version, hash kind). -/
 inductive Sch
@@ -545,7 +593,7 @@ def Sch.resolve : Sch → List Val → Except Err (List Tree)
   | .cont kids, env => match Sch.resolveL kids env with | .ok ts => .ok [.cont ts] | .error e => .error e
   | .mix lim num kids, env =>
     match num.list env, Sch.resolveL kids env with
-    | .ok vs, .ok ts => .ok [.mix (match lim with | .const n => some n | .num => none) vs.length ts]
+    | .ok vs, .ok ts => .ok [.mix lim.toOpt vs.length ts]
     | .error e, _ => .error e
     | _, .error e => .error e
   | .loop s body, env =>
